@@ -230,6 +230,83 @@ theorem readers_keep_registry (env : Env) (m : Msg) (w : W) :
     | error c => by_cases hc : pyCaught c (clause Gen.excVersion 0) = true <;> simp [hc, M.raise]
     | ok v => simp [M.pure, M.seq, M.bind, M.modifySt]
 
+/-! ### Through the dispatch: the decorators never touch the registry -/
+
+theorem wrapMissingPV_nodes (inner : Msg → M Msg) (m : Msg) (w : W) :
+    (wrapMissingPV inner m w).2.st.nodes = (inner m w).2.st.nodes := by
+  rw [wrapMissingPV_eq]
+  simp only []
+  have aw := after_write (inner m w).1 (inner m w).2 (encode versionQuery)
+  simp only [] at aw
+  cases hr : (inner m w).1 with
+  | ok m' =>
+    rw [hr] at aw
+    by_cases hc : ((inner m w).2.st.pv.isNone && wantsVersionQuery m') = true
+    · simp only [hc, if_true]; exact congrArg St.nodes aw.1
+    · simp only [hc]; rfl
+  | error e =>
+    rw [hr] at aw
+    by_cases hc : ((inner m w).2.st.pv.isNone && wantsVersionQuery m) = true
+    · simp only [hc, if_true]; exact congrArg St.nodes aw.1
+    · simp only [hc]; rfl
+
+theorem wrapMissingNC_nodes (inner : Msg → M Msg) (m : Msg) (w : W) :
+    (wrapMissingNC inner m w).2.st.nodes = (inner m w).2.st.nodes := by
+  cases hin : inner m w with
+  | mk r w' =>
+    cases r with
+    | ok r => rw [wrapMissingNC_ok inner m r w w' hin]
+    | error e =>
+      by_cases he : missingCaught e = true
+      · by_cases hm : w'.st.ibuf.has (presentationRequest m.node).key = true
+        · rw [wrapMissingNC_marked inner m e w w' hin he hm]
+        · have hm' : w'.st.ibuf.has (presentationRequest m.node).key = false := by simpa using hm
+          rw [wrapMissingNC_unmarked inner m e w w' hin he hm']
+          simp only [transportWrite]
+          cases hf : w'.faults with
+          | nil => simp
+          | cons f fs => cases f <;> simp
+      · have he' : missingCaught e = false := by simpa using he
+        rw [wrapMissingNC_other inner m e w w' hin he']
+
+theorem wrapNC_nodes (v : Ver) (inner : Msg → M Msg) (m : Msg) (w : W) :
+    (wrapNC v inner m w).2.st.nodes = (inner m w).2.st.nodes := by
+  unfold wrapNC; split
+  · exact wrapMissingNC_nodes inner m w
+  · rfl
+
+/-- **Set, through the whole receive path, in every version**: the registry after the step is the
+registry `handle_set` leaves — the latest payload recorded under (child, value type), or unchanged
+when the node or child is unknown — whatever the write faults and the decorators do. -/
+theorem set_through_dispatch (env : Env) (v : Ver) (m : Msg) (w : W) (hcmd : m.cmd = 1) :
+    (dispatch env v m w).2.st.nodes = (hSet m w).2.st.nodes := by
+  rw [dispatch_set env v m hcmd, wrapNC_nodes, wrapMissingPV_nodes]
+
+theorem req_through_dispatch (env : Env) (v : Ver) (m : Msg) (w : W) (hcmd : m.cmd = 2) :
+    (dispatch env v m w).2.st.nodes = w.st.nodes := by
+  rw [dispatch_req env v m hcmd, wrapNC_nodes, wrapMissingPV_nodes, (readers_keep_registry {} m w).1]
+
+theorem battery_through_dispatch (env : Env) (v : Ver) (m : Msg) (w : W) (hcmd : m.cmd = 3) (ht : m.type = 0) :
+    (dispatch env v m w).2.st.nodes = (hBattery m w).2.st.nodes := by
+  rw [dispatch_internal env v m hcmd, wrapMissingPV_nodes, internal_battery env v m ht, wrapNC_nodes]
+
+theorem sketch_name_through_dispatch (env : Env) (v : Ver) (m : Msg) (w : W) (hcmd : m.cmd = 3) (ht : m.type = 11) :
+    (dispatch env v m w).2.st.nodes = (hSketchName m w).2.st.nodes := by
+  rw [dispatch_internal env v m hcmd, wrapMissingPV_nodes, internal_sketch_name env v m ht, wrapNC_nodes]
+
+theorem sketch_version_through_dispatch (env : Env) (v : Ver) (m : Msg) (w : W) (hcmd : m.cmd = 3) (ht : m.type = 12) :
+    (dispatch env v m w).2.st.nodes = (hSketchVersion m w).2.st.nodes := by
+  rw [dispatch_internal env v m hcmd, wrapMissingPV_nodes, internal_sketch_version env v m ht, wrapNC_nodes]
+
+/-- Config, time, log and version-less traffic: the registry is untouched through the whole path. -/
+theorem config_time_through_dispatch (env : Env) (v : Ver) (m : Msg) (w : W) (hcmd : m.cmd = 3)
+    (ht : m.type = 6 ∨ m.type = 1 ∨ m.type = 9) : (dispatch env v m w).2.st.nodes = w.st.nodes := by
+  rw [dispatch_internal env v m hcmd, wrapMissingPV_nodes]
+  rcases ht with ht | ht | ht
+  · rw [internal_config env v m ht]; exact (readers_keep_registry env m w).2.1
+  · rw [internal_time env v m ht]; exact (readers_keep_registry env m w).2.2.1
+  · rw [internal_log env v m ht]; rfl
+
 /-! Non-vacuity: the F6 witness — node 7 without child 4. -/
 example : errOf (hSet ⟨7, 4, 1, 0, 0, ['1']⟩ { st := { nodes := [(7, { ntype := 17, pv := [] })] } }).1
     = some (.lib (.missingChild 4)) := by decide
